@@ -14,6 +14,9 @@ R12.5  scatter/gather order: entry k is taken from guest address ptr + 8k, ascen
 R12.6  error discipline: a failed native call never yields SUCCESS; success paths store the result first
 R12.7  fd_close in a sequence: the closed table slot no longer holds the native descriptor, and read/write/seek/tell/filestat/close on
        the closed number are EBADF without any native call (rules shared with C13)
+R12.8  call sequences: every sequence of up to 3 (thorough 4) write/read/pwrite/pread/seek/tell calls on one descriptor, evaluated on a
+       concrete guest memory and a model of a regular file, agrees call by call with an independent POSIX reference (return code,
+       stored count/offset, data, file contents, file position)
 """
 import re
 from .. import astdb, pe, wasi as W, wasi_oracle as O, runtime, ctyperules as ct
@@ -155,126 +158,163 @@ def io_reference(kind, positional, lens, fsize, offset, pos):
     return data, f.snapshot()
 
 
+class IOModel:
+    """the I/O imports evaluated on a concrete guest memory and a model of one regular file behind native descriptor 10 (table slot 4);
+    the file and the guest memory persist across calls, so call sequences can be evaluated"""
+    def __init__(self, tu, macros, fsize, pos):
+        self.tu = tu
+        self.data = [0xEE] * IO_SIZE
+        self.f = ModelFile(fsize, pos)
+        self.st = {}
+        data, f, st2 = self.data, self.f, self.st
+        EBADF, EINVAL = macros.get('EBADF', 9), macros.get('EINVAL', 22)
+        SEEK = {macros.get('SEEK_SET', 0): 'set', macros.get('SEEK_CUR', 1): 'cur', macros.get('SEEK_END', 2): 'end'}
+
+        def fail(code):
+            st2['errno']['v'] = code
+            return -1
+
+        def s64(v):
+            if not isinstance(v, int):
+                raise pe.PEError('symbolic file offset/length %r' % (v,))
+            v &= (1 << 64) - 1
+            return v - (1 << 64) if v >> 63 else v
+
+        def segs(iov, count):
+            out = []
+            for k in range(count):
+                e = iov.c[iov.k + k]
+                b, ln = e['iov_base'], e['iov_len']
+                if not (isinstance(b, Ptr) and b.c is data and isinstance(ln, int)):
+                    raise pe.PEError('native segment %d is (%r, %r)' % (k, b, ln))
+                out.append((b.k, ln))
+            return out
+
+        def transfer(rd, fd, sg, at, move):
+            if fd != 10:
+                return fail(EBADF)
+            if at < 0:
+                return fail(EINVAL)
+            total = 0
+            for off, ln in sg:
+                if off < 0 or off + ln > IO_SIZE:
+                    raise pe.PEError('native segment outside the guest memory')
+                stop = False
+                for i in range(ln):
+                    if rd:
+                        if at + total >= f.size:
+                            stop = True
+                            break
+                        data[off + i] = f.bytes.get(at + total, 0)
+                    else:
+                        f.bytes[at + total] = data[off + i]
+                    total += 1
+                if stop:
+                    break
+            if not rd and total:
+                f.size = max(f.size, at + total)
+            if move:
+                f.pos = at + total
+            return total
+
+        def lseek(interp, args, node):
+            fd, off, wh = args[0], s64(args[1]), SEEK.get(args[2])
+            if fd != 10:
+                return fail(EBADF)
+            base = {'set': 0, 'cur': f.pos, 'end': f.size}.get(wh)
+            if base is None or base + off < 0:
+                return fail(EINVAL)
+            f.pos = base + off
+            return f.pos
+
+        def one_buf(a):
+            if not (isinstance(a[1], Ptr) and a[1].c is data and isinstance(a[2], int)):
+                raise pe.PEError('native buffer is (%r, %r)' % (a[1], a[2]))
+            return [(a[1].k, a[2])]
+
+        def malloc(interp, args, node):
+            n = args[-1] if len(args) == 1 else args[0] * args[1]
+            if not isinstance(n, int) or n % 16:
+                raise pe.PEError('allocation of %r bytes (not an iovec array)' % (n,))
+            return Ptr([{'iov_base': 0, 'iov_len': 0} for _ in range(max(n // 16, 1))], 0)
+
+        def gload(width):
+            def fn(interp, args, node):
+                a = args[1]
+                if not isinstance(a, int):
+                    raise pe.PEError('symbolic guest address')
+                return sum(data[a + b] << (8 * b) for b in range(width // 8))
+            return fn
+
+        def gstore(width):
+            def fn(interp, args, node):
+                a, v = args[1], args[2]
+                if not (isinstance(a, int) and isinstance(v, int)):
+                    raise pe.PEError('symbolic guest store')
+                for b in range(width // 8):
+                    data[a + b] = (v >> (8 * b)) & 0xFF
+                return None
+            return fn
+        leafs = {
+            'readv': lambda i, a, n: transfer(True, a[0], segs(a[1], a[2]), f.pos, True),
+            'writev': lambda i, a, n: transfer(False, a[0], segs(a[1], a[2]), f.pos, True),
+            'preadv': lambda i, a, n: transfer(True, a[0], segs(a[1], a[2]), s64(a[3]), False),
+            'pwritev': lambda i, a, n: transfer(False, a[0], segs(a[1], a[2]), s64(a[3]), False),
+            'read': lambda i, a, n: transfer(True, a[0], one_buf(a), f.pos, True),
+            'write': lambda i, a, n: transfer(False, a[0], one_buf(a), f.pos, True),
+            'pread': lambda i, a, n: transfer(True, a[0], one_buf(a), s64(a[3]), False),
+            'pwrite': lambda i, a, n: transfer(False, a[0], one_buf(a), s64(a[3]), False),
+            'lseek': lseek, 'malloc': malloc, 'calloc': malloc, 'free': lambda i, a, n: None,
+            'i32_load': gload(32), 'i32_store': gstore(32), 'i64_store': gstore(64), 'i64_load': gload(64),
+        }
+        for k in list(leafs):
+            if k in ('pread', 'pwrite', 'preadv', 'pwritev', 'lseek'):
+                leafs[k + '64'] = leafs[k]
+        self.it = W.make_interp(tu, st2, leafs)
+
+    def reset(self, fsize, pos):
+        self.data[:] = [0xEE] * IO_SIZE
+        self.f.size, self.f.pos = fsize, pos
+        self.f.bytes.clear()
+        self.f.bytes.update({i: (0xA0 + i) & 0xFF for i in range(fsize)})
+
+    def call(self, fname, args):
+        """-> (return value, abort reason)"""
+        it, st2, data = self.it, self.st, self.data
+
+        def setup():
+            st2.clear()
+            W.seed_globals(it, self.tu, st2, std_table(2), errno_value=0)
+            st2['memcell']['v']['data'] = Ptr(data, 0)
+            return (fname, [unk('instance')] + list(args), {})
+        # a fork would evaluate the leafs twice on the shared model: concrete inputs must give one path
+        snap = (list(self.data), self.f.size, dict(self.f.bytes), self.f.pos)
+        paths = it.explore(setup)
+        if len(paths) != 1:
+            self.data[:] = snap[0]
+            self.f.size, self.f.bytes, self.f.pos = snap[1], snap[2], snap[3]
+            raise pe.PEError('%d paths on concrete input' % len(paths))
+        return paths[0].ret, paths[0].aborted
+
+    def put_iovecs(self, lens, seed=0):
+        fresh = io_guest_memory(lens)
+        for k, ln in enumerate(lens):
+            buf = IO_BUF + 0x40 * k
+            self.data[IO_IOVS + 8 * k:IO_IOVS + 8 * k + 8] = fresh[IO_IOVS + 8 * k:IO_IOVS + 8 * k + 8]
+            for i in range(ln):
+                self.data[buf + i] = (fresh[buf + i] + seed) & 0xFF
+
+
 def concrete_io(tu, fname, kind, positional, lens, fsize, offset, pos, macros):
     """the import evaluated on a concrete guest memory, iovec array and model file; -> discrepancy text or None"""
-    data = io_guest_memory(lens)
-    f = ModelFile(fsize, pos)
-    st2 = {}
-    EBADF, EINVAL = macros.get('EBADF', 9), macros.get('EINVAL', 22)
-    SEEK = {macros.get('SEEK_SET', 0): 'set', macros.get('SEEK_CUR', 1): 'cur', macros.get('SEEK_END', 2): 'end'}
-
-    def fail(code):
-        st2['errno']['v'] = code
-        return -1
-
-    def s64(v):
-        if not isinstance(v, int):
-            raise pe.PEError('symbolic file offset/length %r' % (v,))
-        v &= (1 << 64) - 1
-        return v - (1 << 64) if v >> 63 else v
-
-    def segs(iov, count):
-        out = []
-        for k in range(count):
-            e = iov.c[iov.k + k]
-            b, ln = e['iov_base'], e['iov_len']
-            if not (isinstance(b, Ptr) and b.c is data and isinstance(ln, int)):
-                raise pe.PEError('native segment %d is (%r, %r)' % (k, b, ln))
-            out.append((b.k, ln))
-        return out
-
-    def transfer(rd, fd, sg, at, move):
-        if fd != 10:
-            return fail(EBADF)
-        if at < 0:
-            return fail(EINVAL)
-        total = 0
-        for off, ln in sg:
-            if off < 0 or off + ln > IO_SIZE:
-                raise pe.PEError('native segment outside the guest memory')
-            stop = False
-            for i in range(ln):
-                if rd:
-                    if at + total >= f.size:
-                        stop = True
-                        break
-                    data[off + i] = f.bytes.get(at + total, 0)
-                else:
-                    f.bytes[at + total] = data[off + i]
-                total += 1
-            if stop:
-                break
-        if not rd and total:
-            f.size = max(f.size, at + total)
-        if move:
-            f.pos = at + total
-        return total
-
-    def lseek(interp, args, node):
-        fd, off, wh = args[0], s64(args[1]), SEEK.get(args[2])
-        if fd != 10:
-            return fail(EBADF)
-        base = {'set': 0, 'cur': f.pos, 'end': f.size}.get(wh)
-        if base is None or base + off < 0:
-            return fail(EINVAL)
-        f.pos = base + off
-        return f.pos
-
-    def one_buf(a):
-        if not (isinstance(a[1], Ptr) and a[1].c is data and isinstance(a[2], int)):
-            raise pe.PEError('native buffer is (%r, %r)' % (a[1], a[2]))
-        return [(a[1].k, a[2])]
-
-    def malloc(interp, args, node):
-        n = args[-1] if len(args) == 1 else args[0] * args[1]
-        if not isinstance(n, int) or n % 16:
-            raise pe.PEError('allocation of %r bytes (not an iovec array)' % (n,))
-        return Ptr([{'iov_base': 0, 'iov_len': 0} for _ in range(max(n // 16, 1))], 0)
-
-    def i32_load(interp, args, node):
-        a = args[1]
-        if not isinstance(a, int):
-            raise pe.PEError('symbolic guest address')
-        return sum(data[a + b] << (8 * b) for b in range(4))
-
-    def i32_store(interp, args, node):
-        a, v = args[1], args[2]
-        if not (isinstance(a, int) and isinstance(v, int)):
-            raise pe.PEError('symbolic guest store')
-        for b in range(4):
-            data[a + b] = (v >> (8 * b)) & 0xFF
-        return None
-    leafs = {
-        'readv': lambda i, a, n: transfer(True, a[0], segs(a[1], a[2]), f.pos, True),
-        'writev': lambda i, a, n: transfer(False, a[0], segs(a[1], a[2]), f.pos, True),
-        'preadv': lambda i, a, n: transfer(True, a[0], segs(a[1], a[2]), s64(a[3]), False),
-        'pwritev': lambda i, a, n: transfer(False, a[0], segs(a[1], a[2]), s64(a[3]), False),
-        'read': lambda i, a, n: transfer(True, a[0], one_buf(a), f.pos, True),
-        'write': lambda i, a, n: transfer(False, a[0], one_buf(a), f.pos, True),
-        'pread': lambda i, a, n: transfer(True, a[0], one_buf(a), s64(a[3]), False),
-        'pwrite': lambda i, a, n: transfer(False, a[0], one_buf(a), s64(a[3]), False),
-        'lseek': lseek, 'malloc': malloc, 'calloc': malloc, 'free': lambda i, a, n: None,
-        'i32_load': i32_load, 'i32_store': i32_store,
-    }
-    for k in list(leafs):
-        if k in ('pread', 'pwrite', 'preadv', 'pwritev', 'lseek'):
-            leafs[k + '64'] = leafs[k]
-    it = W.make_interp(tu, st2, leafs)
-
-    def setup():
-        st2.clear()
-        W.seed_globals(it, tu, st2, std_table(2), errno_value=0)
-        st2['memcell']['v']['data'] = Ptr(data, 0)
-        args = [unk('instance'), 4, IO_IOVS, len(lens)] + ([offset] if positional else []) + [IO_RES]
-        return (fname, args, {})
-    paths = it.explore(setup)
-    if len(paths) != 1:
-        raise pe.PEError('%d paths on concrete input' % len(paths))
-    p = paths[0]
+    m = IOModel(tu, macros, fsize, pos)
+    m.data[:] = io_guest_memory(lens)
+    data, f = m.data, m.f
+    ret, aborted = m.call(fname, [4, IO_IOVS, len(lens)] + ([offset] if positional else []) + [IO_RES])
     wdata, wfile = io_reference(kind, positional, lens, fsize, offset, pos)
     what = '%s of segments %r at %s on a %d-byte file positioned at %d' % (kind, lens, ('offset 0x%X' % offset) if positional else 'the file position', fsize, pos)
-    if p.aborted or p.ret != SUCCESS:
-        return '%s: returns %r (%s); POSIX %sv succeeds' % (what, p.ret, p.aborted or 'errno %r' % st2['errno']['v'], kind)
+    if aborted or ret != SUCCESS:
+        return '%s: returns %r (%s); POSIX %sv succeeds' % (what, ret, aborted or 'errno %r' % m.st['errno']['v'], kind)
     if data != wdata:
         k = [i for i in range(IO_SIZE) if data[i] != wdata[i]][0]
         if IO_RES <= k < IO_RES + 4:
@@ -285,6 +325,136 @@ def concrete_io(tu, fname, kind, positional, lens, fsize, offset, pos, macros):
         return '%s: the file ends up as (size, position) = (%d, %d), POSIX: (%d, %d)%s' % (
             what, f.size, f.pos, wfile[0], wfile[1], '' if (f.size, f.pos) != wfile[:2] else ' - contents differ')
     return None
+
+
+class RefFile:
+    """independent reference: POSIX semantics of read/write/pread/pwrite/lseek on one regular file, guest memory alongside"""
+    def __init__(self, fsize, pos):
+        self.size, self.pos = fsize, pos
+        self.bytes = {i: (0xA0 + i) & 0xFF for i in range(fsize)}
+        self.data = [0xEE] * IO_SIZE
+
+    def put_iovecs(self, lens, seed=0):
+        fresh = io_guest_memory(lens)
+        for k, ln in enumerate(lens):
+            buf = IO_BUF + 0x40 * k
+            self.data[IO_IOVS + 8 * k:IO_IOVS + 8 * k + 8] = fresh[IO_IOVS + 8 * k:IO_IOVS + 8 * k + 8]
+            for i in range(ln):
+                self.data[buf + i] = (fresh[buf + i] + seed) & 0xFF
+
+    def store(self, addr, v, nbytes):
+        for b in range(nbytes):
+            self.data[addr + b] = (v >> (8 * b)) & 0xFF
+
+    def transfer(self, rd, lens, at, move):
+        total = 0
+        for k, ln in enumerate(lens):
+            buf = IO_BUF + 0x40 * k
+            stop = False
+            for i in range(ln):
+                if rd:
+                    if at + total >= self.size:
+                        stop = True
+                        break
+                    self.data[buf + i] = self.bytes.get(at + total, 0)
+                else:
+                    self.bytes[at + total] = self.data[buf + i]
+                total += 1
+            if stop:
+                break
+        if not rd and total:
+            self.size = max(self.size, at + total)
+        if move:
+            self.pos = at + total
+        self.store(IO_RES, total, 4)
+        return 0
+
+    def seek(self, delta, wh):
+        base = {'SEEK_SET': 0, 'SEEK_CUR': self.pos, 'SEEK_END': self.size}[wh]
+        if base + delta < 0:
+            return O.ERRNO_NUM['inval']
+        self.pos = base + delta
+        self.store(IO_RES, self.pos, 8)
+        return 0
+
+    def snapshot(self):
+        return (self.size, self.pos, tuple(sorted((k, v) for k, v in self.bytes.items() if v != 0 or k < self.size)))
+
+
+SEQ_OPS = [('write', (3,), 1), ('write', (0, 2), 2), ('read', (2,), 0), ('read', (4, 1), 0), ('pwrite', (2,), 1, 3), ('pwrite', (1, 1), 9, 4),
+           ('pread', (3,), 0, 0), ('pread', (2, 2), 5, 0), ('seek', 1, 'SEEK_SET'), ('seek', -2, 'SEEK_CUR'), ('seek', 0, 'SEEK_END'),
+           ('seek', 2, 'SEEK_END'), ('tell',)]
+
+
+def check_sequences(chk, tu, macros):
+    """R12.8: call sequences on one descriptor - every sequence of up to 3 (thorough: 4) calls drawn from writes, reads, positional
+    writes and reads, seeks (all three origins, backwards, beyond the end, before the start) and tell is evaluated on the concrete
+    file model and compared, call by call, with an independent POSIX reference: error codes, counts and offsets stored in guest
+    memory, data transferred, resulting file contents and file position"""
+    import itertools
+    eps = W.entry_points(tu)
+    maxlen = 4 if chk.tier == 'thorough' else 3
+    ops = SEQ_OPS if chk.tier == 'thorough' else [o for o in SEQ_OPS if o not in (('pwrite', (1, 1), 9, 4), ('pread', (2, 2), 5, 0), ('seek', 2, 'SEEK_END'),
+                                                                                   ('read', (2,), 0), ('seek', 1, 'SEEK_SET'))]
+    for gen in ('preview1', 'unstable'):
+        names = {k: eps[k][gen]['name'] for k in ('fd_write', 'fd_read', 'fd_pwrite', 'fd_pread', 'fd_seek', 'fd_tell')}
+        wh_code = {v: k for k, v in O.WHENCE[gen].items()}
+        n = 0
+        bad = None
+        m = IOModel(tu, macros, 4, 1)
+        for ln in range(1, maxlen + 1):
+            if ln == 4:
+                pool = [o for o in ops if o[0] != 'tell']
+            else:
+                pool = ops
+            for seq in itertools.product(pool, repeat=ln):
+                if ln >= 3 and all(o[0] in ('seek', 'tell') for o in seq):
+                    continue
+                m.reset(4, 1)
+                r = RefFile(4, 1)
+                n += 1
+                for step, op in enumerate(seq):
+                    k = op[0]
+                    if k in ('write', 'read', 'pwrite', 'pread'):
+                        lens = list(op[1])
+                        seed = op[-1]
+                        m.put_iovecs(lens, seed)
+                        r.put_iovecs(lens, seed)
+                        args = [4, IO_IOVS, len(lens)] + ([op[2]] if k[0] == 'p' else []) + [IO_RES]
+                        want = r.transfer(k.endswith('read'), lens, op[2] if k[0] == 'p' else r.pos, k[0] != 'p')
+                        fname = names['fd_' + k]
+                    elif k == 'seek':
+                        args = [4, op[1] & ((1 << 64) - 1), wh_code[op[2]], IO_RES]
+                        want = r.seek(op[1], op[2])
+                        fname = names['fd_seek']
+                    else:
+                        args = [4, IO_RES]
+                        want = r.seek(0, 'SEEK_CUR')
+                        fname = names['fd_tell']
+                    try:
+                        got, aborted = m.call(fname, args)
+                    except (pe.PEError, IndexError, KeyError, TypeError) as e:
+                        raise AnalysisBroken('%s in sequence %r on the concrete file model: %s' % (fname, seq, e))
+                    what = None
+                    if aborted or got != want:
+                        what = 'returns %r%s, POSIX: errno %r' % (got, ' (%s)' % aborted if aborted else '', want)
+                    elif m.data != r.data:
+                        a = [i for i in range(IO_SIZE) if m.data[i] != r.data[i]][0]
+                        what = 'leaves guest byte 0x%X = %r (POSIX: 0x%02X)%s' % (a, m.data[a], r.data[a], ' - the stored count/offset' if IO_RES <= a < IO_RES + 8 else '')
+                    elif m.f.snapshot() != r.snapshot():
+                        what = 'leaves the file with (size, position) = (%d, %d), POSIX: (%d, %d)%s' % (
+                            m.f.size, m.f.pos, r.size, r.pos, '' if (m.f.size, m.f.pos) != (r.size, r.pos) else ' - contents differ')
+                    if what:
+                        bad = 'in the call sequence %s on a 4-byte file positioned at 1, call %d (%s) %s' % (
+                            ' ; '.join('%s%r' % (o[0], o[1:]) for o in seq), step + 1, fname.split('__')[-1], what)
+                        break
+                if bad:
+                    break
+            if bad:
+                break
+        chk.expect(not bad, 'R12.8', '%s/call-sequences' % gen, '%s: %s' % (gen, bad), 'call-sequence/%s' % gen,
+                   detail_ok='%d call sequences of up to %d calls over %d operations agree with the POSIX reference' % (n, maxlen, len(ops)))
+
 
 
 def io_cases(kind, positional, tier, full):
@@ -799,6 +969,8 @@ def run(chk):
     macros = W.host_macros(('E', 'SEEK_', 'O_'))
     check_signatures(chk, tu)
     check_rw(chk, tu, macros)
+    check_sequences(chk, tu, macros)
+    chk.floor('R12.8', 2)
     check_seek(chk, tu, macros)
     check_errno_table(chk, tu, macros)
     check_open_flags(chk, tu, macros)
